@@ -243,12 +243,29 @@ class LexInterp:
             res = []
             for s, v in self.ev(e.args[0], st):
                 if v[0] == "slice" and isinstance(v[1], int) and isinstance(v[2], int):
-                    res.append((s, ("const", v[2] - v[1])))
+                    res.append((s, ("slicelen", v[1], v[2])))
                 else:
                     raise Unsupported("len() of %r" % (v,))
             return res
         if isinstance(f, ast.Name) and f.id == "range" and len(e.args) == 1 and isinstance(e.args[0], ast.Constant):
             return [(st, ("range", e.args[0].value))]
+        # TABLE[char](...) : the class constructed depends on the character
+        if isinstance(f, ast.Subscript):
+            res = []
+            for s0, cont in self.ev(f.value, st):
+                for s1, idx in self.ev(f.slice, s0):
+                    if cont[0] == "const" and isinstance(cont[1], dict) and idx[0] == "chr":
+                        for key, cls in cont[1].items():
+                            s2 = self.refine(s1, idx[1], frozenset([key]) & self.A.chars)
+                            if s2 is None:
+                                continue
+                            cur2 = [s2]
+                            for a in list(e.args) + [k.value for k in e.keywords]:
+                                cur2 = [s4 for s3 in cur2 for s4, _ in self.ev(a, s3)]
+                            res.extend((s5, ("token", cls)) for s5 in cur2)
+                    else:
+                        raise Unsupported("call through subscript %s" % ast.unparse(f))
+            return res
         # any other call: evaluate receiver and arguments (they may consume), result opaque
         cur = [st]
         if isinstance(f, ast.Attribute):
@@ -358,6 +375,27 @@ class LexInterp:
             if r[0] == "const" and isinstance(r[1], str) and len(r[1]) == 1 and isinstance(op, (ast.GtE, ast.Gt, ast.Lt, ast.LtE)):
                 fn = {ast.GtE: lambda ch: ch >= r[1], ast.Gt: lambda ch: ch > r[1], ast.Lt: lambda ch: ch < r[1], ast.LtE: lambda ch: ch <= r[1]}[type(op)]
                 return self.split(s, l[1], self.A.where(fn))
+        if l[0] == "slicelen" and r[0] == "const" and isinstance(op, (ast.Eq, ast.NotEq)):
+            a, b = l[1], l[2]
+            if b <= s.c:
+                # every character of the slice has been consumed: the length is exact
+                return [(s, ((b - a) == r[1]) != neg)]
+            if r[1] != b - a:
+                raise Unsupported("slice length compared with %r at line %s" % (r[1], e.lineno))
+            # len(source[a:b]) == b - a  iff  none of the characters a..b-1 is past the end
+            res, cur = [], s
+            for off in range(a, b):
+                if off < cur.c:
+                    continue   # already consumed: exists
+                short = self.refine(cur, off, frozenset([EOFA]))
+                if short:
+                    res.append((short, neg))
+                cur = self.refine(cur, off, self.A.chars)
+                if cur is None:
+                    break
+            if cur is not None:
+                res.append((cur, not neg))
+            return res
         if l[0] == "const" and r[0] == "const":
             v = {ast.Eq: lambda a, b: a == b, ast.NotEq: lambda a, b: a != b, ast.Is: lambda a, b: a is b, ast.IsNot: lambda a, b: a is not b,
                  ast.In: lambda a, b: a in b, ast.NotIn: lambda a, b: a not in b}.get(type(op))
